@@ -593,11 +593,23 @@ func installBehaviours(beh map[string]Behaviour) *Script {
 
 // runEngine mirrors runWorkflow of cmd/arcaflow/main.go: Parse, then Run, mapping the outcome to the CLI exit code.
 func runEngine(beh map[string]Behaviour, mk func() (loadfile.FileCache, error), fileName string, input []byte, split bool) (apiResult, int) {
+	return runEngineOn(nil, beh, mk, fileName, input, split)
+}
+
+// longLivedEngine is ONE engine instance used by the `same_engine*` variants of every case of a harness process: what an
+// engine returns for a context has to be a function of that context, not of what the instance parsed or ran before.
+var longLivedEngine engine.WorkflowEngine
+
+// runEngineOn is runEngine on a given engine instance (nil: a fresh one).
+func runEngineOn(given engine.WorkflowEngine, beh map[string]Behaviour, mk func() (loadfile.FileCache, error), fileName string, input []byte, split bool) (apiResult, int) {
 	res := apiResult{}
 	exit := -1
 	g := guarded(30*time.Second, func() {
 		installBehaviours(beh)
-		flow, err := installQuietScriptedEngine()
+		flow, err := given, error(nil)
+		if flow == nil {
+			flow, err = installQuietScriptedEngine()
+		}
 		if err != nil {
 			res = apiResult{ErrorFlag: true, Err: err.Error(), ErrClass: "engineNew", Stage: "cache"}
 			exit = 1
@@ -1146,6 +1158,44 @@ func runEngineAPICase(r *rng, caseID string, o apiOpts) map[string]any {
 		}
 		v.EqualsDirect = sameAPIOutcome(v.Result, bl)
 		variants = append(variants, v)
+	}
+	// one long-lived engine instance (shared by all cases of this process): first the context with the modified leaf (if the
+	// case has one), then the context as it is - same file names, same texts except for that leaf; each has to give what a
+	// fresh engine gives for it
+	{
+		if longLivedEngine == nil {
+			longLivedEngine, _ = installQuietScriptedEngine()
+		}
+		seq := []struct {
+			name, baseline string
+			m              map[string]string
+		}{}
+		if modFile != "" {
+			seq = append(seq, struct {
+				name, baseline string
+				m              map[string]string
+			}{"same_engine_mod", "direct_mod", modTexts})
+		}
+		seq = append(seq, struct {
+			name, baseline string
+			m              map[string]string
+		}{"same_engine", "direct", texts})
+		for _, e := range seq {
+			e := e
+			v := &apiVariant{Name: e.name, API: "memory", Cwd: "neutral", RootGiven: ctxDir, FileName: "workflow.yaml",
+				Keys: digests(e.m), Disk: "tree", Baseline: e.baseline, Supplied: "all", Split: true, memTexts: e.m}
+			if longLivedEngine != nil {
+				_ = withCwd(cwdOf[v.Cwd], func() {
+					v.RootAbs, _ = filepath.Abs(v.RootGiven)
+					v.RootClass = rootClass(v.RootGiven)
+					v.Result, v.ExitCode = runEngineOn(longLivedEngine, beh, func() (loadfile.FileCache, error) {
+						return loadfile.NewFileCache(v.RootGiven, bytesMap(v.memTexts)), nil
+					}, v.FileName, input, true)
+				})
+				v.EqualsDirect = sameAPIOutcome(v.Result, *results[v.Baseline])
+				variants = append(variants, v)
+			}
+		}
 	}
 	out["variants"] = variants
 	out["merge"] = mergeProbe(r, ctxDir, t, texts)
